@@ -271,6 +271,19 @@ def main():
     for pat in mode_patterns(ck.rng, 300 if thorough else 70):
         pairs.append(("p.patch", patch_stmts_modes(pat), "a.go", file_stmts(ls)))
         names.append("stmts-modes:%s" % " ".join(sy + (":" + m if m else "") for sy, m in pat)); meta.append(("stmts-modes", pat, None, None))
+    # which '-' elision a '+' elision reproduces: by position in the patch (closest '-' elision at or before it), not by ordinal
+    ASSOC = [
+        ("@@\n@@\n-start(...)\n process(...)\n+finish(...)\n", "func h() {\n\tstart(1, 2)\n\tprocess(3, 4)\n}\n"),
+        ("@@\n@@\n-a(...)\n-b(...)\n+c(...)\n+d(...)\n", "func h() {\n\ta(1)\n\tb(2, 3)\n}\n"),
+        ("@@\n@@\n-a(...)\n+c(...)\n-b(...)\n+d(...)\n", "func h() {\n\ta(1)\n\tb(2, 3)\n}\n"),
+        ("@@\n@@\n-old := Config{...}\n cfg := Config{...}\n+use(Config{...})\n", "func h() {\n\told := Config{A: 1}\n\tcfg := Config{B: 2, C: 3}\n}\n"),
+        ("@@\n@@\n-f(...)\n g(func(..., err error) {\n   ...\n })\n+h(...)\n", "func k() {\n\tf(1, 2)\n\tg(func(a int, err error) {\n\t\tbody()\n\t})\n}\n"),
+        ("@@\nvar x expression\n@@\n-first(x, ...)\n+first(...)\n second(...)\n+third(...)\n", "func h() {\n\tfirst(0, 1, 2)\n\tsecond(3)\n}\n"),
+        ("@@\n@@\n foo(...)\n-bar(...)\n+baz(...)\n+qux(...)\n", "func h() {\n\tfoo(1)\n\tbar(2, 3)\n}\n"),
+        ("@@\n@@\n-foo(...,\n-  bar(...))\n+foo(bar(...), ...)\n", "func h() {\n\tfoo(1, 2, bar(3, 4))\n}\n"),
+    ]
+    for j, (pt, body) in enumerate(ASSOC):
+        pairs.append(("p.patch", pt.encode(), "a.go", ("package p\n\n" + body).encode())); names.append("assoc#%d" % j); meta.append(("assoc", None, None, None))
     # for-headers
     for_patch = b"@@\n@@\n for ... {\n-  a()\n+  A()\n   ...\n }\n"
     for_file = b"package p\n\nfunc h() {\n\tfor i := 0; i < n; i++ {\n\t\ta()\n\t\tb()\n\t}\n\tfor k, v := range m {\n\t\ta()\n\t}\n\tfor {\n\t\ta()\n\t}\n\tfor cond() {\n\t\tb()\n\t\ta()\n\t}\n\tfor range ch {\n\t\ta()\n\t\tc()\n\t}\n}\n"
